@@ -256,6 +256,21 @@ impl MNode {
         st
     }
 
+    /// Reach-weighted magnitude: an upper bound on the absolute value of every expected utility
+    /// and every best-response value of the game (chance averages, players maximise). Rounding
+    /// noise of any evaluation is proportional to this, not to the payoff range — the two differ
+    /// by many orders of magnitude in a "lottery" game (a huge payoff behind a tiny probability).
+    pub fn mag(&self) -> f64 {
+        match self {
+            MNode::T(x) => x.abs(),
+            MNode::C { outs, .. } => {
+                let q = normalised(&outs.iter().map(|(_, w, _)| *w).collect::<Vec<_>>());
+                outs.iter().zip(&q).map(|((_, _, c), q)| q * c.mag()).sum()
+            }
+            MNode::P { acts, .. } => acts.iter().map(|(_, c)| c.mag()).fold(0.0, f64::max),
+        }
+    }
+
     /// apply `f` to every terminal payoff, in depth-first order
     pub fn map_payoffs(&self, f: &mut impl FnMut(f64) -> f64) -> MNode {
         match self {
